@@ -20,6 +20,8 @@ const Cfg cfgs[] = {
   {"map<string>/b1/defmemo/scramble/ebr0", mk<MapAd<SMap<rc::EBR<0>, 1, StrScramble>, std::string>>},
   {"map<string>/b2/defmemo/const/hp_d1_1_1", mk<MapAd<SMap<rc::HP_D<1, 1, 1>, 2, ConstHash>, std::string>>},
   {"map<int>/b2/nomemo/scramble/qsbr", mk<MapAd<IMap<rc::QSBR, 2, false, ScrambleHash>, int>>},
+  {"map<int>/b2/memo/id/backoff_single/hp_s8_0_0",
+   mk<MapAd<xenium::harris_michael_hash_map<int, int, xp::reclaimer<rc::HP_S<8, 0, 0>>, xp::buckets<2>, xp::memoize_hash<true>, xp::hash<IdHash>, xp::backoff<xenium::single_backoff>>, int>>},
 };
 HMHarness h("hmmap", cfgs, sizeof(cfgs) / sizeof(cfgs[0]));
 struct Reg { Reg() { xsim::register_harness(&h); } } reg;
